@@ -3,7 +3,7 @@
    document the crashes fixed by repository commits a8b628a..98eb553: they are statements about the explicitly named
    pre-fix definitions of Model_Checkers_Prefix.v, and C01_fixed_witnesses_ok evaluates the current definitions on the
    same witnesses. *)
-From GC Require Import Base GoAst Model_Checkers Model_Checkers_Prefix Proofs_Checkers Proofs_Witnesses.
+From GC Require Import Base GoAst Model_Checkers Model_Checkers_Prefix Model_Checkers2 Model_Walkers Model_Comments Proofs_Checkers Proofs_Checkers2 Proofs_Walkers Proofs_Comments Proofs_Witnesses.
 
 Theorem C01_appendCombine_total : forall f, wf f = true -> forall s, run_appendCombine f <> Panic s.
 Proof. exact (fun f _ => appendCombine_total f). Qed.
@@ -118,3 +118,147 @@ Theorem C01_fixed_witnesses_ok :
 Proof. exact witnesses_regress. Qed.
 Print Assumptions C01_fixed_witnesses_ok.
 
+
+(* ---------- second batch (Model_Checkers2.v): 20 more hand-written checkers and the LocalDef / FuncDecl walkers ---------- *)
+
+Theorem C01_builtinShadowDecl_total : forall f, wf f = true -> forall s, run_builtinShadowDecl f <> Panic s.
+Proof. exact (fun f _ => builtinShadowDecl_total f). Qed.
+Print Assumptions C01_builtinShadowDecl_total.
+
+Theorem C01_defaultCaseOrder_total : forall f, wf f = true -> forall s, run_defaultCaseOrder f <> Panic s.
+Proof. exact (fun f _ => defaultCaseOrder_total f). Qed.
+Print Assumptions C01_defaultCaseOrder_total.
+
+Theorem C01_emptyFallthrough_total : forall f, wf f = true -> forall s, run_emptyFallthrough f <> Panic s.
+Proof. exact (fun f _ => emptyFallthrough_total f). Qed.
+Print Assumptions C01_emptyFallthrough_total.
+
+Theorem C01_initClause_total : forall f, wf f = true -> forall s, run_initClause f <> Panic s.
+Proof. exact (fun f _ => initClause_total f). Qed.
+Print Assumptions C01_initClause_total.
+
+Theorem C01_deferInLoop_total : forall f, wf f = true -> forall s, run_deferInLoop f <> Panic s.
+Proof. exact (fun f _ => deferInLoop_total f). Qed.
+Print Assumptions C01_deferInLoop_total.
+
+Theorem C01_paramTypeCombine_total : forall f, wf f = true -> forall s, run_paramTypeCombine f <> Panic s.
+Proof. exact (fun f _ => paramTypeCombine_total f). Qed.
+Print Assumptions C01_paramTypeCombine_total.
+
+Theorem C01_ptrToRefParam_total : forall f, wf f = true -> forall s, run_ptrToRefParam f <> Panic s.
+Proof. exact (fun f _ => ptrToRefParam_total f). Qed.
+Print Assumptions C01_ptrToRefParam_total.
+
+Theorem C01_sloppyTypeAssert_total : forall f, wf f = true -> forall s, run_sloppyTypeAssert f <> Panic s.
+Proof. exact (fun f _ => sloppyTypeAssert_total f). Qed.
+Print Assumptions C01_sloppyTypeAssert_total.
+
+Theorem C01_octalLiteral_total : forall f, wf f = true -> forall s, run_octalLiteral f <> Panic s.
+Proof. exact (fun f _ => octalLiteral_total f). Qed.
+Print Assumptions C01_octalLiteral_total.
+
+Theorem C01_hexLiteral_total : forall f, wf f = true -> forall s, run_hexLiteral f <> Panic s.
+Proof. exact (fun f _ => hexLiteral_total f). Qed.
+Print Assumptions C01_hexLiteral_total.
+
+Theorem C01_weakCond_total : forall f, wf f = true -> forall s, run_weakCond f <> Panic s.
+Proof. exact (fun f _ => weakCond_total f). Qed.
+Print Assumptions C01_weakCond_total.
+
+Theorem C01_methodExprCall_total : forall f, wf f = true -> forall s, run_methodExprCall f <> Panic s.
+Proof. exact (fun f _ => methodExprCall_total f). Qed.
+Print Assumptions C01_methodExprCall_total.
+
+Theorem C01_dupBranchBody_total : forall f, wf f = true -> forall s, run_dupBranchBody f <> Panic s.
+Proof. exact (fun f _ => dupBranchBody_total f). Qed.
+Print Assumptions C01_dupBranchBody_total.
+
+Theorem C01_exitAfterDefer_total : forall f, wf f = true -> forall s, run_exitAfterDefer f <> Panic s.
+Proof. exact (fun f _ => exitAfterDefer_total f). Qed.
+Print Assumptions C01_exitAfterDefer_total.
+
+Theorem C01_singleCaseSwitch_total : forall f, wf f = true -> forall s, run_singleCaseSwitch f <> Panic s.
+Proof. exact (singleCaseSwitch_total). Qed.
+Print Assumptions C01_singleCaseSwitch_total.
+
+Theorem C01_elseif_total : forall skip_balanced f, wf f = true -> forall s, run_elseif skip_balanced f <> Panic s.
+Proof. exact (fun p f _ => elseif_total p f). Qed.
+Print Assumptions C01_elseif_total.
+
+Theorem C01_underef_total : forall skip_recv f, wf f = true -> forall s, run_underef skip_recv f <> Panic s.
+Proof. exact (fun p f _ => underef_total p f). Qed.
+Print Assumptions C01_underef_total.
+
+Theorem C01_unnamedResult_total : forall check_exported f, wf f = true -> forall s, run_unnamedResult check_exported f <> Panic s.
+Proof. exact (unnamedResult_total). Qed.
+Print Assumptions C01_unnamedResult_total.
+
+Theorem C01_captLocal_total : forall params_only f, wf f = true -> forall s, run_captLocal params_only f <> Panic s.
+Proof. exact (fun p f W => run_localdef_total (captLocal_visit p) f W). Qed.
+Print Assumptions C01_captLocal_total.
+
+Theorem C01_builtinShadow_total : forall f, wf f = true -> forall s, run_builtinShadow f <> Panic s.
+Proof. exact (fun f W => run_localdef_total builtinShadow_visit f W). Qed.
+Print Assumptions C01_builtinShadow_total.
+
+Theorem C01_localDefWalker_total : forall visit f, wf f = true -> forall s, run_localdef visit f <> Panic s.
+Proof. exact (run_localdef_total). Qed.
+Print Assumptions C01_localDefWalker_total.
+
+(* ---------- the astwalk walkers themselves (Model_Walkers.v): for EVERY visitor (any SkipChilds behaviour) ---------- *)
+
+Theorem C01_exprWalker_total : forall enter skip f s, walk_expr enter skip f <> P s.
+Proof. exact (fun enter skip f s => @R_total (list node) _ s). Qed.
+Print Assumptions C01_exprWalker_total.
+
+Theorem C01_funcDeclWalker_total : forall enter f s, walk_func_decl enter f <> P s.
+Proof. exact (fun enter f s => @R_total (list node) _ s). Qed.
+Print Assumptions C01_funcDeclWalker_total.
+
+Theorem C01_localExprWalker_total : forall skip f, wf f = true -> forall s, walk_local_expr decl_entered skip f <> P s.
+Proof. exact (fun skip f W => body_walk_total is_expr skip f W). Qed.
+Print Assumptions C01_localExprWalker_total.
+
+Theorem C01_stmtWalker_total : forall skip f, wf f = true -> forall s, walk_stmt decl_entered skip f <> P s.
+Proof. exact (fun skip f W => body_walk_total is_stmt skip f W). Qed.
+Print Assumptions C01_stmtWalker_total.
+
+Theorem C01_stmtListWalker_total : forall skip f, wf f = true -> forall s, walk_stmt_list decl_entered skip f <> P s.
+Proof. exact (fun skip f W => body_walk_total is_stmt_list_node skip f W). Qed.
+Print Assumptions C01_stmtListWalker_total.
+
+Theorem C01_typeExprWalker_total : forall skip f, wf f = true -> forall s, walk_type_expr decl_entered skip f <> P s.
+Proof. exact (walk_type_expr_total). Qed.
+Print Assumptions C01_typeExprWalker_total.
+
+(* full statement (any EnterFunc): forall cls enter skip f, wf f = true -> forall s, body_walk cls enter skip f <> P s — refuted: a visitor whose
+   EnterFunc accepts a body-less function makes the statement walkers call ast.Inspect on a nil *ast.BlockStmt *)
+
+Theorem C01_bodyWalkers_any_enter_refuted : exists f, wf f = true /\ exists s, walk_stmt (fun _ => true) (fun _ => false) f = P s.
+Proof. exact (ex_intro _ bodyless_file body_walk_enter_all_refuted). Qed.
+Print Assumptions C01_bodyWalkers_any_enter_refuted.
+
+Theorem C01_bodyWalkers_total_partial : forall cls enter skip f, (forall d, In d (decls f) -> enter d = true -> exists b, fd_body d = Some b) -> forall s, body_walk cls enter skip f <> P s.
+Proof. exact (body_walk_total_enter). Qed.
+Print Assumptions C01_bodyWalkers_total_partial.
+
+(* ---------- unlambda: `result.Args[n]` ----------
+   full statement: forall f, wf f = true -> forall s, run_unlambda f <> Panic s.
+   wf does not relate the literal's parameter list to the callee's arity; go/types does (the checker only indexes after
+   types.Identical(TypeOf(literal), TypeOf(callee)) held). That guarantee is the explicit hypothesis g_unlambda_arity (the call's
+   arguments fit the literal's own parameter list, `...T` comes last, an identifier is not a multi-value expression); the tie
+   evaluates it on every converted file (case_detail2 reports "g_unlambda_arity" when it fails). *)
+Theorem C01_unlambda_total_partial : forall f, wf f = true -> all_nodes_sat g_unlambda_arity f -> forall s, run_unlambda f <> Panic s.
+Proof. exact unlambda_total_partial. Qed.
+Print Assumptions C01_unlambda_total_partial.
+
+Example C01_unlambda_hypothesis_satisfiable :
+  wf Witnesses.w_bare_return = true /\ forallb g_unlambda_arity (all_nodes Witnesses.w_bare_return) = true.
+Proof. exact unlambda_hypothesis_satisfiable. Qed.
+
+(* ---------- deprecatedComment (DocComment walker; comment text as byte strings): l[:len(pat)], line[:len("DEPRECATED: ")]
+   and strings.Split(line, ":")[0] are in range for every file and every comment text ---------- *)
+
+Theorem C01_deprecatedComment_total : forall f cs ct s, run_deprecatedComment f cs ct <> Panic s.
+Proof. exact (deprecatedComment_total). Qed.
+Print Assumptions C01_deprecatedComment_total.
